@@ -22,6 +22,9 @@ pub use script_bit::*;
 mod script_template;
 pub use script_template::*;
 
+/// Deepest nesting of IF/NOTIF blocks that the parsers accept.
+pub const MAX_IF_NESTING: usize = 500;
+
 #[derive(Debug, Default, Clone, PartialEq, Eq, Serialize, Deserialize)]
 pub struct Script(pub(crate) Vec<ScriptBit>);
 
@@ -217,11 +220,11 @@ impl Script {
         Ok(bit)
     }
 
-    fn read_pass(bits_iter: &mut Iter<ScriptBit>) -> Result<(Vec<ScriptBit>, bool), BSVErrors> {
+    fn read_pass(bits_iter: &mut Iter<ScriptBit>, depth: usize) -> Result<(Vec<ScriptBit>, bool), BSVErrors> {
         let mut nested_bits = vec![];
         while let Some(thing) = bits_iter.next() {
             match thing {
-                ScriptBit::OpCode(v @ (OpCodes::OP_IF | OpCodes::OP_NOTIF | OpCodes::OP_VERIF | OpCodes::OP_VERNOTIF)) => Script::read_if_statement(bits_iter, &mut nested_bits, v)?,
+                ScriptBit::OpCode(v @ (OpCodes::OP_IF | OpCodes::OP_NOTIF | OpCodes::OP_VERIF | OpCodes::OP_VERNOTIF)) => Script::read_if_statement(bits_iter, &mut nested_bits, v, depth)?,
                 ScriptBit::OpCode(OpCodes::OP_ELSE) => return Ok((nested_bits, false)),
                 ScriptBit::OpCode(OpCodes::OP_ENDIF) => return Ok((nested_bits, true)),
                 o => nested_bits.push(o.clone()),
@@ -231,11 +234,11 @@ impl Script {
         Err(BSVErrors::DeserialiseScript("OP_IF branch requires an OP_ELSE or OP_ENDIF code".into()))
     }
 
-    fn read_fail(bits_iter: &mut Iter<ScriptBit>) -> Result<Vec<ScriptBit>, BSVErrors> {
+    fn read_fail(bits_iter: &mut Iter<ScriptBit>, depth: usize) -> Result<Vec<ScriptBit>, BSVErrors> {
         let mut nested_bits = vec![];
         while let Some(thing) = bits_iter.next() {
             match thing {
-                ScriptBit::OpCode(v @ (OpCodes::OP_IF | OpCodes::OP_NOTIF | OpCodes::OP_VERIF | OpCodes::OP_VERNOTIF)) => Script::read_if_statement(bits_iter, &mut nested_bits, v)?,
+                ScriptBit::OpCode(v @ (OpCodes::OP_IF | OpCodes::OP_NOTIF | OpCodes::OP_VERIF | OpCodes::OP_VERNOTIF)) => Script::read_if_statement(bits_iter, &mut nested_bits, v, depth)?,
                 ScriptBit::OpCode(OpCodes::OP_ENDIF) => return Ok(nested_bits),
                 o => nested_bits.push(o.clone()),
             }
@@ -244,8 +247,14 @@ impl Script {
         Err(BSVErrors::DeserialiseScript("OP_ELSE branch requires an OP_ENDIF code".into()))
     }
 
-    fn read_if_statement(bits_iter: &mut Iter<ScriptBit>, nested_bits: &mut Vec<ScriptBit>, v: &OpCodes) -> Result<(), BSVErrors> {
-        let (pass_bits, ended) = Script::read_pass(bits_iter)?;
+    fn read_if_statement(bits_iter: &mut Iter<ScriptBit>, nested_bits: &mut Vec<ScriptBit>, v: &OpCodes, depth: usize) -> Result<(), BSVErrors> {
+        // The nested representation is walked recursively (parsing, serialising, cloning, dropping),
+        // so unbounded nesting would overflow the native stack.
+        if depth >= MAX_IF_NESTING {
+            return Err(BSVErrors::DeserialiseScript(format!("Conditionals are nested deeper than {} levels", MAX_IF_NESTING)));
+        }
+
+        let (pass_bits, ended) = Script::read_pass(bits_iter, depth + 1)?;
         nested_bits.push(ScriptBit::If {
             code: *v,
             // Read until OP_ELSE or OP_ENDIF
@@ -253,7 +262,7 @@ impl Script {
             // Read until OP_ENDIF
             fail: match ended {
                 true => None,
-                false => Some(Script::read_fail(bits_iter)?),
+                false => Some(Script::read_fail(bits_iter, depth + 1)?),
             },
         });
         Ok(())
@@ -265,7 +274,7 @@ impl Script {
 
         while let Some(thing) = bits_iter.next() {
             match thing {
-                ScriptBit::OpCode(v @ (OpCodes::OP_IF | OpCodes::OP_NOTIF | OpCodes::OP_VERIF | OpCodes::OP_VERNOTIF)) => Script::read_if_statement(bits_iter, &mut nested_bits, v)?,
+                ScriptBit::OpCode(v @ (OpCodes::OP_IF | OpCodes::OP_NOTIF | OpCodes::OP_VERIF | OpCodes::OP_VERNOTIF)) => Script::read_if_statement(bits_iter, &mut nested_bits, v, 0)?,
                 o => nested_bits.push(o.clone()),
             }
         }
